@@ -52,10 +52,13 @@ static Verdict run(const Case &c) {
                     if (!dec_hdr(e.data, hd) || e.data.size() != 32) { v.fail(fmt("step %zu: transmitted frame %zu has %zu bytes, expected 32", i, k, e.data.size())); break; }
                     if (k < n) {
                         const uint8_t *d = &op.blob[k * 14];
+                        Mac dsrc = getmac(d + 2), ddst = getmac(d + 8);
+                        if (mac_to_u64(dsrc) == 0x0E0000000000ULL) dsrc = own;   // generator's sentinel for "the responder's own address"
+                        if (mac_to_u64(ddst) == 0x0E0000000000ULL) ddst = own;
                         uint8_t want = d[0] == 1 ? OP_PROBE : OP_TRAIN;
                         if (hd.op != want) v.fail(fmt("step %zu: frame %zu has opcode %u, descriptor asks for %u", i, k, hd.op, want));
                         else if (slept != d[1]) v.fail(fmt("step %zu: frame %zu sent after pausing %llu ms, descriptor asks for %u", i, k, (unsigned long long)slept, d[1]));
-                        else if (hd.esrc != getmac(d + 2) || hd.edst != getmac(d + 8)) v.fail(fmt("step %zu: frame %zu Ethernet addresses %s>%s differ from descriptor %s>%s", i, k, hd.esrc.str().c_str(), hd.edst.str().c_str(), getmac(d + 2).str().c_str(), getmac(d + 8).str().c_str()));
+                        else if (hd.esrc != dsrc || hd.edst != ddst) v.fail(fmt("step %zu: frame %zu Ethernet addresses %s>%s differ from descriptor %s>%s", i, k, hd.esrc.str().c_str(), hd.edst.str().c_str(), dsrc.str().c_str(), ddst.str().c_str()));
                         else if (hd.rsrc != own) v.fail(fmt("step %zu: frame %zu real source is not the own address", i, k));
                         else if (hd.ethertype != 0x88D9 || hd.ver != 1 || hd.res != 0 || hd.tos != 0) v.fail(fmt("step %zu: frame %zu base header malformed", i, k));
                     } else if (k == n) {
